@@ -1270,12 +1270,42 @@ class Interp:
                 break
 
     def st_With(self, st: ast.With, fr: Frame) -> None:
+        managers: List[Obj] = []
         for item in st.items:
             v = self.eval(item.context_expr, fr)
             self.run.event("with", ctx=v, node=st)
+            bound = v
+            if isinstance(v, Obj) and v.cls.find_method("__exit__") is not None:
+                # a context manager written in the repository: __enter__ / __exit__ are interpreted (an __exit__ that returns
+                # a true value swallows the exception raised in the body)
+                ent = v.cls.find_method("__enter__")
+                if ent is not None:
+                    bound = self.call_func(ent, [], {}, v, st, fr)
+                managers.append(v)
             if item.optional_vars is not None:
-                self.assign(item.optional_vars, v, fr)
-        self.exec_block(st.body, fr)
+                self.assign(item.optional_vars, bound, fr)
+        if not managers:
+            self.exec_block(st.body, fr)
+            return
+        fr.try_depth += 1          # calls in the body are explored with their failing outcomes too: __exit__ may see them
+        try:
+            try:
+                self.exec_block(st.body, fr)
+            finally:
+                fr.try_depth -= 1
+        except RaiseEx as r:
+            for m in reversed(managers):
+                ex = m.cls.find_method("__exit__")
+                res = self.call_func(ex, [Extern(r.exc.type_name), r.exc, Unknown(self.run.new_tag("traceback"), {"truthy": True, "not_none": True})],
+                                     {}, m, st, fr)
+                if self.truth(res, f"{m.cls.name}.__exit__ returns a true value"):
+                    self.run.event("caught", exc=r.exc, handler=st, func=fr.func.qualname if fr.func else "", by_exit=m.cls.name)
+                    self.run.event("exception_swallowed_by_exit", exc=r.exc, manager=m.cls.name, node=st,
+                                   func=fr.func.qualname if fr.func else "")
+                    return
+            raise
+        for m in reversed(managers):
+            self.call_func(m.cls.find_method("__exit__"), [NONE, NONE, NONE], {}, m, st, fr)
 
     def st_Try(self, st: ast.Try, fr: Frame) -> None:
         try:
